@@ -38,6 +38,8 @@ META = {
 def run(ctx):
     obs = ctx.obs
     obs.extra['meta'] = META
+    from ..model import set_cell_scale_varies
+    set_cell_scale_varies(True)            # some datasets are 100 m / 5 m models expressed in degrees
     from ..model import set_declaration_order_varies
     set_declaration_order_varies(True)     # some datasets declare the x dimension before y
     total = ctx.n(480, 50000)
